@@ -307,7 +307,9 @@ def to_categorical(array, highlevel=True):
     layout = ak.operations.convert.to_layout(
         array, allow_record=False, allow_other=False
     )
-    out = ak._util.recursively_apply(layout, getfunction, pass_depth=False)
+    out = ak._util.recursively_apply(
+        layout, getfunction, pass_depth=False, numpy_to_regular=True
+    )
     if highlevel:
         return ak._util.wrap(out, ak._util.behaviorof(array))
     else:
